@@ -76,6 +76,9 @@ def build_cases(ctx, baselines):
                         if n[k] == uc.CHECKSUM_REPLY[prov] and (full or pi in (0, 3)):
                             # the checksum-carrying reply arrives well-formed but without the checksum
                             cases.append(dict(base, faults=[(k, 'nofield')], classes0=n, must=True))
+                            # ... and what was stored differs from what was sent: nothing vouches for the object
+                            for kd in [j for j in range(k) if n[j] == uc.DATA_ENDPOINTS[prov]][:1]:
+                                cases.append(dict(base, faults=[(kd, 'corrupt'), (k, 'nofield')], classes0=n, must=True))
                     if full:
                         cases.append(dict(base, faults=[('token', 'status')], classes0=n))
                         # two faults: the second hits the clean-up request that follows the first
